@@ -80,7 +80,61 @@ def itemDiffs {α} : Item α → Option (List (Diff α))
   | .batch ds => some ds
   | _ => none
 
-/-- `poll_next` of a chain of stages (outermost first) sitting on receiver `sub` of the vector.
+/-- `ready_values` of a stage (Filter has none: it maps one diff to at most one) -/
+def Stage.ready {α} : Stage α → List (Diff α)
+  | .head _ _ _ r | .tail _ _ _ r | .skip _ _ _ r | .sort _ _ r => r
+  | .filter _ _ => []
+
+def Stage.setReady {α} (r : List (Diff α)) : Stage α → Stage α
+  | .head l k b _ => .head l k b r
+  | .tail l k b _ => .tail l k b r
+  | .skip c k b _ => .skip c k b r
+  | .sort c b _ => .sort c b r
+  | .filter f st => .filter f st
+
+/-- the stage's limit / count stream (`none`: `EmptyLimitStream` / no such stream) -/
+def Stage.limOf {α} : Stage α → Option Nat
+  | .head _ k _ _ | .tail _ k _ _ | .skip _ k _ _ => k
+  | .filter _ _ | .sort _ _ _ => none
+
+/-- `update_limit` / `update_count`: the diffs to emit and the stage with the new parameter -/
+def Stage.onLimit {α} (v : Nat) : Stage α → List (Diff α) × Stage α
+  | .head l k b r => (Head.updateLimit l v b, .head v k b r)
+  | .tail l k b r => (Tail.updateLimit l v b, .tail v k b r)
+  | .skip c k b r => (Skip.updateCount c v b, .skip (some v) k b r)
+  | st => ([], st)
+
+/-- one incoming container through the stage (`push_into_*_buf` / `filter_map` with the stage's closure):
+    the diffs produced, in order, and the updated stage; `none` = a panic (`apply` out of range, `expect`) -/
+def Stage.onDiffs {α} (T : Tables α) (ds : List (Diff α)) : Stage α → Option (List (Diff α) × Stage α)
+  | .head l k buf r =>
+    (mapDiffs (fun d pl b => Head.handleDiff d l pl b) ds buf []).map fun (buf', out) => (out, .head l k buf' r)
+  | .tail l k buf r =>
+    (mapDiffs (fun d pl b => Tail.handleDiff d l pl b) ds buf []).map fun (buf', out) => (out, .tail l k buf' r)
+  | .skip c k buf r =>
+    let h : Diff α → Nat → List α → List (Diff α) := fun d pl b =>
+      match c with
+      | some c => Skip.handleDiff d c pl b
+      | none => []
+    (mapDiffs h ds buf []).map fun (buf', out) => (out, .skip c k buf' r)
+  | .filter fid st =>
+    let (out, st') := ds.foldl (fun (acc : List (Diff α) × FilterSt) d =>
+        let (o, s) := Filter.handle (T.filt fid) d acc.2
+        (acc.1 ++ o.toList, s)) ([], st)
+    some (out, .filter fid st')
+  | .sort cid buf r =>
+    (ds.foldl (fun (acc : Option (List (Diff α) × List (Nat × α))) d =>
+        match acc with
+        | none => none
+        | some (out, b) =>
+          match Srt.handle (T.cmp cid) (T.sort cid) d b with
+          | none => none
+          | some (o, b') => some (out ++ o, b')) (some ([], buf))).map fun (out, buf') => (out, .sort cid buf' r)
+
+/-- `poll_next` of a chain of stages (outermost first) sitting on receiver `sub` of the vector — the common
+    skeleton of head.rs:193-245, tail.rs:204-264, skip.rs:205-270, filter.rs:395-456, sort.rs:214-247:
+    1. hand out a buffered diff if there is one; 2. drain the limit/count stream, returning as soon as a change
+    produces diffs; 3. poll the inner stream; rewrite what it yields; if nothing comes out, start over.
     One unit of fuel per loop iteration / nested poll. -/
 def pollStages {α} (T : Tables α) (batched : Bool) (sub : Nat) :
     Nat → List (Stage α) → PWorld α → Item α × List (Stage α) × PWorld α
@@ -89,108 +143,28 @@ def pollStages {α} (T : Tables α) (batched : Bool) (sub : Nat) :
     match w.ov.poll sub with
     | some (it, ov') => (it, [], { w with ov := ov' })
     | none => (.panic, [], w)
-  | fuel + 1, .head limit lim buf ready :: inner, w =>
-    match ready with
-    | d :: rest => (.one d, .head limit lim buf rest :: inner, w)            -- `pop_from_head_buf`
+  | fuel + 1, st :: inner, w =>
+    match st.ready with
+    | d :: rest => (.one d, st.setReady rest :: inner, w)
     | [] =>
-      match limPoll w lim with
-      | (.value l, w1) =>
-        match emit batched (Head.updateLimit limit l buf) with
-        | some (it, rest) => (it, .head l lim buf rest :: inner, w1)
-        | none => pollStages T batched sub fuel (.head l lim buf [] :: inner) w1
+      match limPoll w st.limOf with
+      | (.value v, w1) =>
+        let (ds, st1) := st.onLimit v
+        match emit batched ds with
+        | some (it, rest) => (it, st1.setReady rest :: inner, w1)
+        | none => pollStages T batched sub fuel (st1 :: inner) w1
       | (_, w1) =>
         match pollStages T batched sub fuel inner w1 with
         | (it, inner', w2) =>
           match itemDiffs it with
-          | none => (it, .head limit lim buf [] :: inner', w2)                 -- Pending / End / panic pass through
+          | none => (it, st :: inner', w2)                       -- Pending / End / panic pass through
           | some ds =>
-            match mapDiffs (fun d pl b => Head.handleDiff d limit pl b) ds buf [] with
-            | none => (.panic, .head limit lim buf [] :: inner', w2)
-            | some (buf', out) =>
+            match st.onDiffs T ds with
+            | none => (.panic, st :: inner', w2)
+            | some (out, st2) =>
               match emit batched out with
-              | some (it', rest) => (it', .head limit lim buf' rest :: inner', w2)
-              | none => pollStages T batched sub fuel (.head limit lim buf' [] :: inner') w2
-  | fuel + 1, .tail limit lim buf ready :: inner, w =>
-    match ready with
-    | d :: rest => (.one d, .tail limit lim buf rest :: inner, w)
-    | [] =>
-      match limPoll w lim with
-      | (.value l, w1) =>
-        match emit batched (Tail.updateLimit limit l buf) with
-        | some (it, rest) => (it, .tail l lim buf rest :: inner, w1)
-        | none => pollStages T batched sub fuel (.tail l lim buf [] :: inner) w1
-      | (_, w1) =>
-        match pollStages T batched sub fuel inner w1 with
-        | (it, inner', w2) =>
-          match itemDiffs it with
-          | none => (it, .tail limit lim buf [] :: inner', w2)
-          | some ds =>
-            match mapDiffs (fun d pl b => Tail.handleDiff d limit pl b) ds buf [] with
-            | none => (.panic, .tail limit lim buf [] :: inner', w2)
-            | some (buf', out) =>
-              match emit batched out with
-              | some (it', rest) => (it', .tail limit lim buf' rest :: inner', w2)
-              | none => pollStages T batched sub fuel (.tail limit lim buf' [] :: inner') w2
-  | fuel + 1, .skip count lim buf ready :: inner, w =>
-    match ready with
-    | d :: rest => (.one d, .skip count lim buf rest :: inner, w)
-    | [] =>
-      match limPoll w lim with
-      | (.value c, w1) =>
-        match emit batched (Skip.updateCount count c buf) with
-        | some (it, rest) => (it, .skip (some c) lim buf rest :: inner, w1)
-        | none => pollStages T batched sub fuel (.skip (some c) lim buf [] :: inner) w1
-      | (_, w1) =>
-        match pollStages T batched sub fuel inner w1 with
-        | (it, inner', w2) =>
-          match itemDiffs it with
-          | none => (it, .skip count lim buf [] :: inner', w2)
-          | some ds =>
-            let h : Diff α → Nat → List α → List (Diff α) := fun d pl b =>
-              match count with
-              | some c => Skip.handleDiff d c pl b
-              | none => []
-            match mapDiffs h ds buf [] with
-            | none => (.panic, .skip count lim buf [] :: inner', w2)
-            | some (buf', out) =>
-              match emit batched out with
-              | some (it', rest) => (it', .skip count lim buf' rest :: inner', w2)
-              | none => pollStages T batched sub fuel (.skip count lim buf' [] :: inner') w2
-  | fuel + 1, .filter fid st :: inner, w =>
-    match pollStages T batched sub fuel inner w with
-    | (it, inner', w2) =>
-      match itemDiffs it with
-      | none => (it, .filter fid st :: inner', w2)
-      | some ds =>
-        -- `filter_map`: every diff goes through `handle_*`, updating the bookkeeping
-        let (out, st') := ds.foldl (fun (acc : List (Diff α) × FilterSt) d =>
-            let (o, s) := Filter.handle (T.filt fid) d acc.2
-            (acc.1 ++ o.toList, s)) ([], st)
-        match emit batched out with
-        | some (it', _) => (it', .filter fid st' :: inner', w2)      -- single: at most one diff, nothing buffered
-        | none => pollStages T batched sub fuel (.filter fid st' :: inner') w2
-  | fuel + 1, .sort cid buf ready :: inner, w =>
-    match ready with
-    | d :: rest => (.one d, .sort cid buf rest :: inner, w)
-    | [] =>
-      match pollStages T batched sub fuel inner w with
-      | (it, inner', w2) =>
-        match itemDiffs it with
-        | none => (it, .sort cid buf [] :: inner', w2)
-        | some ds =>
-          let r := ds.foldl (fun (acc : Option (List (Diff α) × List (Nat × α))) d =>
-              match acc with
-              | none => none
-              | some (out, b) =>
-                match Srt.handle (T.cmp cid) (T.sort cid) d b with
-                | none => none
-                | some (o, b') => some (out ++ o, b')) (some ([], buf))
-          match r with
-          | none => (.panic, .sort cid buf [] :: inner', w2)
-          | some (out, buf') =>
-            match emit batched out with
-            | some (it', rest) => (it', .sort cid buf' rest :: inner', w2)
-            | none => pollStages T batched sub fuel (.sort cid buf' [] :: inner') w2
+              | some (it', rest) => (it', st2.setReady rest :: inner', w2)
+              | none => pollStages T batched sub fuel (st2 :: inner') w2
 
 /-- how a stage is asked for -/
 inductive StageSpec where
